@@ -19,6 +19,7 @@ type c13sess struct {
 	idx     int
 	gen     int // how many times this slot of the scenario has been (re)opened
 	ip      string
+	port    int // source port of the last session of this slot (reused for the next one in some runs)
 	dc      *sdns.ClientDnsConnection
 	srv     net.Conn
 	pc, ps  *Peer
@@ -106,15 +107,33 @@ func scenarioC13(r *Run) {
 		err  error
 		done bool
 	}
+	type retiredConn struct {
+		conn net.Conn
+		desc string
+	}
+	var retired []retiredConn
 	openMany := func(list []*c13sess) bool {
 		var pend []*pending
 		for _, s := range list {
 			s.gen++
+			if s.srv != nil {
+				// the server application still holds the connection object of the slot's previous session
+				retired = append(retired, retiredConn{conn: s.srv, desc: fmt.Sprintf("session %d generation %d (id %d)", s.idx, s.gen-1, s.uid)})
+				s.srv = nil
+			}
+			samePort := 0
 			if c.Chance(1, 3, "new-address") {
 				s.ip = fmt.Sprintf("10.0.2.%d", 50+10*s.idx+s.gen)
+			} else if s.port != 0 && s.state == "closed" && c.Chance(1, 2, "same-source-port") {
+				// the new session comes from exactly the address of the old one (a client that reuses its
+				// source port, or clients behind one resolver)
+				samePort = s.port
+				r.Count("sessions_from_a_reused_address")
 			}
 			delete(silenced, s.ip)
+			r.Net.SourcePort = samePort
 			dc, err := dialDnsClient(r, addr, s.ip)
+			r.Net.SourcePort = 0
 			if err != nil {
 				r.Fail("world-setup", "dns client: %v", err)
 				return false
@@ -182,6 +201,9 @@ func scenarioC13(r *Run) {
 			s := p.s
 			s.dc = p.dc
 			s.srv = nil
+			if ua, ok := p.dc.LocalAddr().(*net.UDPAddr); ok {
+				s.port = ua.Port
+			}
 			for i, cn := range pool {
 				if id, ok := sdns.SimServerUserId(cn); ok && id == s.uid {
 					s.srv = cn
@@ -412,6 +434,15 @@ func scenarioC13(r *Run) {
 			r.Logf("clock runs for %v (live sessions keep polling)", d)
 			r.RunFor(d)
 			r.Count("fault_clock_jump")
+		case op == 9 && len(retired) > 0:
+			// the server application closes, late, the connection object of a session that ended long ago
+			i := c.Pick(len(retired), "late-close")
+			ops = append(ops, "lateclose")
+			r.Logf("the server application closes the connection of %s", retired[i].desc)
+			retired[i].conn.Close()
+			retired = append(retired[:i], retired[i+1:]...)
+			r.RunFor(time.Second)
+			r.Count("late_closes_of_retired_connections")
 		case op == 7 || op == 8:
 			if s.state != "none" {
 				spoof(s, s.state == "closed" && c.Chance(1, 2, "from-old-address"))
